@@ -111,12 +111,14 @@ def signing_solver(m: dict[str, Any]) -> tuple[Any, list[Any], list[Any]]:
         generator_for_signature_type_f = kwargs["generator_for_signature_type_f"]
         signature_for_hash_type_f = m["signature_for_hash_type_f"]
         existing_script = kwargs.get("existing_script", b"")
+        # public keys that are variables of the script (p2pkh) have been solved by now
+        known_sec_keys = [solved_values.get(k, k) for k in m["sec_list"]]
         existing_signatures, secs_solved = _find_signatures(
             existing_script,
             generator_for_signature_type_f,
             signature_for_hash_type_f,
             len(m["sig_list"]),
-            m["sec_list"],
+            known_sec_keys,
         )
 
         sec_keys = m["sec_list"]
